@@ -14,7 +14,9 @@
 From Coq Require Import List String Bool PrimFloat.
 From Verif Require Import Base.Result Base.PyDict Model.Domain Model.Exec Model.ChangeSignature
   Spec.Pddl Spec.Rename
-  Proofs.C18_Dict Proofs.C18_Alpha Proofs.C18_Denote Proofs.C18_Exec Proofs.C18_Check Proofs.C18_Legacy Proofs.C18_Main.
+  Base.Sexp Model.Types
+  Proofs.C18_Dict Proofs.C18_Alpha Proofs.C18_Denote Proofs.C18_Exec Proofs.C18_Check Proofs.C18_Parser Proofs.C18_Legacy
+  Proofs.C18_Main.
 Import ListNotations.
 Open Scope string_scope.
 Open Scope list_scope.
@@ -45,6 +47,44 @@ Theorem C18_rename (dom : mdomain) (m : renaming) (a : maction) :
   denote_action (change_signature m a) = option_map (ren_action (rn m)) (denote_action a) /\
   same_behaviour dom a (change_signature m a).
 Proof. exact (rename_correct dom m a). Qed.
+
+(* ---- the side condition in words: for a well-formed action (what the parser produces) a mapping passes as soon as
+        it moves parameters only, is injective on them, and sends a moved parameter to another parameter's name
+        (overlap is fine) or to a name the action does not mention, never to a quantified variable or a constant ---- *)
+Theorem C18_side_condition (dom : mdomain) (a : maction) (m : renaming) :
+  let ps := dkeys (ma_sig a) in
+  well_formed a = true ->
+  (forall n, ~ In n ps -> rn m n = n) ->
+  (forall x y, In x ps -> In y ps -> rn m x = rn m y -> x = y) ->
+  (forall p, In p ps -> rn m p <> p ->
+     (In (rn m p) ps \/ ~ In (rn m p) (names_action a)) /\
+     ~ In (rn m p) (bound_maction a) /\ dmem (d_consts dom) (rn m p) = false /\ dmem (d_consts dom) p = false) ->
+  renaming_ok dom a m = true.
+Proof. exact (renaming_ok_intro dom a m). Qed.
+
+(* ---- the well-formedness half of the side condition is what the (model of the) domain parser guarantees, whenever
+        the declared functions have distinct parameter names (true of every table built by parse_domain,
+        Proofs.C18_Parser.parsed_funcs_NoDup), none is named like a comparison/assignment operator, and no numeral
+        starts with '<' or '>' (Python's float() accepts none) ---- *)
+Theorem C18_parser_well_formed (num : numparser) (tt : typetable) (consts : pydict string) (preds funcs : pydict signature)
+        (e : list sexp) (a : maction) :
+  wf_funcs funcs -> num_ok num -> parse_action num tt consts preds funcs e = Ok a -> well_formed a = true.
+Proof. exact (fun W K => parse_action_well_formed num tt consts preds funcs W K e a). Qed.
+
+(* ---- hence, for every action the parser returns, C18_rename applies under a condition on the mapping alone ---- *)
+Theorem C18_rename_parsed (num : numparser) (dom : mdomain) (e : list sexp) (a : maction) (m : renaming) :
+  wf_funcs (d_funcs dom) -> num_ok num ->
+  parse_action num (d_types dom) (d_consts dom) (d_preds dom) (d_funcs dom) e = Ok a ->
+  let ps := dkeys (ma_sig a) in
+  (forall n, ~ In n ps -> rn m n = n) ->
+  (forall x y, In x ps -> In y ps -> rn m x = rn m y -> x = y) ->
+  (forall p, In p ps -> rn m p <> p ->
+     (In (rn m p) ps \/ ~ In (rn m p) (names_action a)) /\
+     ~ In (rn m p) (bound_maction a) /\ dmem (d_consts dom) (rn m p) = false /\ dmem (d_consts dom) p = false) ->
+  ma_sig (change_signature m a) = map (rn_item m) (ma_sig a) /\
+  denote_action (change_signature m a) = option_map (ren_action (rn m)) (denote_action a) /\
+  same_behaviour dom a (change_signature m a).
+Proof. exact (rename_parsed num dom e a m). Qed.
 
 (* ---- model and spec together: the action denoted by the renamed object model has the applicability and the
         successors of the action denoted by the original ---- *)
@@ -118,6 +158,9 @@ Proof. exact legacy_refuted. Qed.
 Print Assumptions C18_alpha.
 Print Assumptions C18_signature.
 Print Assumptions C18_rename.
+Print Assumptions C18_side_condition.
+Print Assumptions C18_parser_well_formed.
+Print Assumptions C18_rename_parsed.
 Print Assumptions C18_denoted_behaviour.
 Print Assumptions C18_legacy_partial.
 Print Assumptions C18_legacy_refuted.
